@@ -23,6 +23,10 @@ import common
 import langcheck
 import langgen
 import langrun
+try:
+    import tinygen
+except ImportError:          # the shared whole-grammar generator is optional
+    tinygen = None
 
 TRUSTED_EXTRA = [
     "C04: Spec.v (run_spec) is the formalisation of lexical scoping used as the oracle; the AST dump of harness/src/lang.rs "
@@ -295,7 +299,191 @@ def shape_rec_array(rng, tier):
         "build(%(k)d)\nshout(%(it)s)\n" % {"it": it, "k": k, "op": op})
 
 
-SHAPES = [shape_callee_assign, shape_rec_array, shape_nest, shape_mutual, shape_closure, shape_forward, shape_param_shadow, shape_loop_fn, shape_array_capture]
+def shape_positions(rng, tier):
+    """one variable referenced in EVERY syntactic position (each placeholder of a template string incl.
+    repeated and padded ones, operands, call arguments, array elements, index base and index, member
+    receiver, condition, loop condition, return, assignment target and right-hand side, index-assignment
+    base, mutating-method receiver and argument) x binding kind (global, captured from 1 or 2 function
+    levels up, parameter, local) x a same-named variable live in the caller, in another activation of
+    the enclosing function and in a sibling block"""
+    v, arr = rng.choice([("v", "w"), ("a", "b"), ("b", "c")])
+    levels = rng.choice([0, 1, 2])
+    kind = rng.choice(["captured", "captured", "param", "local"])
+    pad = "  " * levels
+    body = [
+        'shout("{%(v)s}|{%(v)s} / {%(v)s}!{%(arr)s}{%(v)s}")',
+        'shout("{%(arr)s}{%(arr)s}")',
+        "shout(%(v)s add %(v)s times 2)",
+        "shout(idf(%(v)s, %(v)s minus 1))",
+        "shout([%(v)s, %(v)s])",
+        "shout(%(arr)s[%(v)s mod 2])",
+        "shout(to_string(%(v)s).len())",
+        "shout(%(arr)s.len())",
+        'if to say (%(v)s pass 2) start shout("big {%(v)s} {%(v)s}") end',
+        "make zk get 0\njasi (zk small pass %(v)s mod 3) start zk get zk add 1 end\nshout(zk)",
+        "%(v)s get %(v)s add 1",
+        "%(arr)s[0] get %(v)s",
+        "%(arr)s[%(v)s mod 2] get %(arr)s[0] add 1",
+        "%(arr)s.push(%(v)s)",
+        "%(arr)s.reverse()",
+        'shout("{%(v)s} {%(arr)s} {%(v)s}")',
+        "return %(v)s",
+    ]
+    rng.shuffle(body)
+    body = [b for b in body if not b.startswith("return")] + ["return %(v)s"]
+    if kind == "param":
+        head = "do probe(%(v)s, %(arr)s) start"
+        call = "probe(%(v)s, %(arr)s)"
+    elif kind == "local":
+        head = "do probe() start\n" + pad + "    make %(v)s get 40\n" + pad + "    make %(arr)s get [7, 8]"
+        call = "probe()"
+    else:
+        head = "do probe() start"
+        call = "probe()"
+    lines = ["do idf(%(v)s, %(arr)s) start return %(v)s times 10 add %(arr)s end",
+             "make %(v)s get 3", "make %(arr)s get [1, 2, 3]"]
+    # enclosing functions that declare their own v / arr (capture from 1 or 2 levels up) and recurse
+    for l in range(levels):
+        p = "  " * l
+        lines += [p + "do lvl%d(n) start" % l,
+                  p + "  make %(v)s get n add " + str(10 * (l + 1)),
+                  p + "  make %(arr)s get [n, " + str(l) + "]"]
+    p = "  " * levels
+    lines.append(p + head)
+    lines += [p + "  " + bl for b in body for bl in b.split("\n")]
+    lines.append(p + "end")
+    # callers with a same-named parameter / local, a sibling block with a same-named variable
+    lines += [p + "do viaparam(%(v)s, %(arr)s) start return " + call + " end",
+              p + "do vialocal() start",
+              p + "  make %(v)s get 500",
+              p + "  make %(arr)s get [5]",
+              p + "  make r get " + call,
+              p + '  shout("{%(v)s} {%(arr)s} {%(v)s}")',
+              p + "  return r",
+              p + "end",
+              p + "start",
+              p + "  make %(v)s get 77",
+              p + "  make %(arr)s get [77]",
+              p + "  shout(" + call + ")",
+              p + "end",
+              p + "shout(" + call + ")",
+              p + "shout(viaparam(9, [9, 9]))",
+              p + "shout(vialocal())",
+              p + 'shout("{%(v)s} {%(arr)s}")']
+    for l in reversed(range(levels)):
+        p = "  " * l
+        inner = "lvl%d(n)" % (l + 1) if l + 1 < levels else None
+        if inner:
+            lines.append(p + "  shout(" + inner + ")")
+        lines += [p + "  if to say (n pass 0) start shout(lvl%d(n minus 1)) end" % l,
+                  p + '  shout("{%(v)s}{%(v)s}")',
+                  p + "  return %(v)s",
+                  p + "end"]
+    if levels:
+        lines.append("shout(lvl0(%d))" % rng.randint(1, 2))
+    lines.append('shout("{%(v)s} {%(arr)s} {%(v)s}")')
+    return ("\n".join(lines) + "\n") % {"v": v, "arr": arr}
+
+
+def shape_fn_names(rng, tier):
+    """function-name collisions: a function that redefines its own name in its body or in a nested block
+    (the inner definition shadows, also before its definition), a parameter / local named like the
+    enclosing function, sibling blocks defining the same name, calls from a nested function back to the
+    enclosing one (real recursion), a block-level function shadowing a global one"""
+    f = rng.choice(["f", "a", "step"])
+    g = rng.choice(["g", "b", "fmt"])
+    where = rng.choice(["body", "nested", "loop"])
+    early = rng.random() < 0.5
+    inner = ["do %(f)s(k) start return k times 100 end"]
+    use = ["make r get %(f)s(n minus 1)"]
+    seq = (use + inner) if early else (inner + use)
+    if where == "body":
+        core = seq + ["return r add 1"]
+    elif where == "nested":
+        core = ["if to say (n pass 0) start"] + ["  " + x for x in seq] + ["  return r add 1", "end", "return 0 minus 1"]
+    else:
+        core = ["make i get 0", "make acc get 0", "jasi (i small pass 2) start", "  i get i add 1"] + \
+               ["  " + x for x in seq] + ["  acc get acc add r", "end", "return acc"]
+    lines = ["do %(f)s(n) start"] + ["  " + x for x in core] + ["end",
+             "shout(%(f)s(0))", "shout(%(f)s(3))",
+             # a parameter and a local named like the enclosing function; the call still means the function
+             "do %(g)s(%(g)s) start",
+             "  if to say (%(g)s small pass 1) start return %(g)s end",
+             "  make %(f)s get %(g)s times 2",
+             "  shout(\"{%(g)s} {%(f)s} {%(g)s}\")",
+             "  return %(g)s(%(g)s minus 1) add %(f)s",
+             "end",
+             "shout(%(g)s(2))",
+             # nested function calling the enclosing one: real recursion
+             "do count(n) start",
+             "  do again(k) start return count(k minus 1) end",
+             "  if to say (n pass 0) start return again(n) add 1 end",
+             "  return 0",
+             "end",
+             "shout(count(3))",
+             # sibling blocks defining the same name; a block-level definition shadows the global one
+             "if to say (true) start",
+             "  shout(%(g)s(1))",
+             "  do %(g)s(x) start return \"then\" end",
+             "end",
+             "if not so start",
+             "  do %(g)s(x) start return \"else\" end",
+             "  shout(%(g)s(1))",
+             "end",
+             "start",
+             "  do %(f)s(x) start return \"block {x} {x}\" end",
+             "  start",
+             "    shout(%(f)s(5, 6))",
+             "    do %(f)s(x, y) start return x add y end",
+             "    shout(%(f)s(1, 2))",
+             "  end",
+             "  shout(%(f)s(6))",
+             "end",
+             "shout(%(f)s(1))"]
+    return ("\n".join(lines) + "\n") % {"f": f, "g": g}
+
+
+# ---- whole-grammar stream: lib/tinygen.py (shared generator over a 3-name pool used for variables,
+# parameters AND functions at every level), made terminating by a tree transformation
+def _tg_bound(stmts, ctr):
+    out = []
+    for s in stmts:
+        k = s[0]
+        if k == "fun":
+            pre = [("set", "zd", ("bin", "add", ("var", "zd"), ("num", "1"))),
+                   ("if", ("bin", "pass", ("var", "zd"), ("num", "40")), [("return", ("null",))], None)]
+            out.append(("fun", s[1], s[2], pre + _tg_bound(s[3], ctr)))
+        elif k == "loop":
+            ctr[0] += 1
+            zk = "zk%d" % ctr[0]
+            pre = [("set", zk, ("bin", "add", ("var", zk), ("num", "1"))),
+                   ("if", ("bin", "pass", ("var", zk), ("num", "3")), [("break",)], None)]
+            out.append(("make", zk, ("num", "0")))
+            out.append(("loop", s[1], pre + _tg_bound(s[2], ctr)))
+        elif k == "if":
+            out.append(("if", s[1], _tg_bound(s[2], ctr), None if s[3] is None else _tg_bound(s[3], ctr)))
+        elif k == "block":
+            out.append(("block", _tg_bound(s[1], ctr)))
+        else:
+            out.append(s)
+    return out
+
+
+def gen_tiny(rng, tier):
+    """a tinygen program whose loops run at most 3 times and whose call depth is bounded (a global call
+    counter that every function body increments: itself a captured variable that is assigned everywhere);
+    programs that would read stdin or spawn a process are not used"""
+    for _ in range(50):
+        o = tinygen.Opts(p_sane=rng.choice([1.0, 1.0, 0.98]), max_depth=rng.choice([3, 4, 5]))
+        src, tree, _ = tinygen.gen(rng, o)
+        if "read_line" in src or "command" in src or ".run" in src:
+            continue
+        body = [("make", "zd", ("num", "0"))] + _tg_bound(tree, [0])
+        return tinygen.render(body)
+    return "shout(1)\n"
+
+
+SHAPES = [shape_positions, shape_fn_names, shape_callee_assign, shape_rec_array, shape_nest, shape_mutual, shape_closure, shape_forward, shape_param_shadow, shape_loop_fn, shape_array_capture]
 
 
 def early_capture(rng, recursion):
@@ -471,8 +659,9 @@ def correspond(env, searching=False, model=True):
     quick = env.tier == "quick"
     n_base = 700 if quick else 21000
     n_shape = 280 if quick else 8400
+    n_tiny = (300 if quick else 9000) if tinygen is not None else 0
     if searching:
-        n_base, n_shape = n_base * 2, n_shape * 2
+        n_base, n_shape, n_tiny = n_base * 2, n_shape * 2, n_tiny * 2
     failures, disagreements, samples = [], [], []
     evaluations = 0
     nontriv = set()
@@ -507,12 +696,17 @@ def correspond(env, searching=False, model=True):
     def batches():
         made = 0
         size = 250
-        while made < n_base + n_shape:
+        total = n_base + n_shape + n_tiny
+        while made < total:
             cases = []
             for _ in range(size):
-                if made >= n_base + n_shape:
+                if made >= total:
                     break
-                if rng.random() < n_base / float(n_base + n_shape):
+                u = rng.random() * total
+                if u >= n_base + n_shape:
+                    gstats["tinygen"] = gstats.get("tinygen", 0) + 1
+                    cases.append(("t%d" % made, gen_tiny(rng, env.tier)))
+                elif u < n_base:
                     src, st = gen_base(rng, env.tier)
                     for k, v in st.items():
                         gstats[k] = gstats.get(k, 0) + v
@@ -623,7 +817,7 @@ def correspond(env, searching=False, model=True):
     return {
         "evaluations": evaluations,
         "distinct_nontrivial": len(nontriv),
-        "rule": "accepted generated programs (langgen with a 3-name pool, p_shadow 0.6, nesting up to %s, recursion; 9 shape templates; "
+        "rule": "accepted generated programs (langgen with a 3-name pool, p_shadow 0.6, nesting up to %s, recursion; 11 shape templates incl. a position x binding-kind matrix and function-name collisions; lib/tinygen.py whole-grammar programs made terminating; "
                 "a dedicated early-capture stream); oracle: implementation (nn) printed values and ending = Spec.run_spec (names-only "
                 "static-link interpreter) unless the reference is stuck/fuel/unsupported, and a stuck reference must not be a normal "
                 "implementation result; model tie: implementation = Lang.run_impl and lexical / lexical_bij true on every accepted "
